@@ -224,7 +224,7 @@ public:
 	/**
 	Returns true if the file pointer reached the end of the file
 	*/
-	bool end() {return feof(_file) != 0;}
+	bool end() {return feof(_file) != 0 || ferror(_file) != 0;} // a failed read also ends the reading
 	/**
 	Flushes the write buffers effectively writing data on disk
 	*/
